@@ -3,6 +3,16 @@
    module of the executable, all.ml (generated) references them so none is dropped. *)
 let () = All.touch ()
 
+(* the extracted models recurse as deep as their inputs are long (Peano fuel, firstn on a 256 KiB
+   packet): run with an unlimited stack (re-exec once through the shell) *)
+let () =
+  if Sys.getenv_opt "GPVERIF_STACK" = None && Array.length Sys.argv >= 3 then begin
+    let args = String.concat " " (Stdlib.List.map Filename.quote (Array.to_list Sys.argv |> Stdlib.List.tl)) in
+    let cmd = Printf.sprintf "ulimit -s unlimited 2>/dev/null || ulimit -s 4000000 2>/dev/null; GPVERIF_STACK=1 exec %s %s"
+        (Filename.quote Sys.executable_name) args in
+    exit (Sys.command cmd)
+  end
+
 let coq_mode () =
   (* main.exe --coq <prop> <cases> <out.v> <n> *)
   let prop = Sys.argv.(2) in
